@@ -28,7 +28,7 @@ def refine(src, args, timeout=60, strict_done=0, subst_last=0, limit=200000, com
     old = signal.signal(signal.SIGALRM, _alarm)
     signal.alarm(compile_budget)
     try:
-        o = compile_program(src, args, codegen=False)
+        o = compile_program(src, args, codegen=True)
     except _Slow:
         return {"status": "unsupported", "detail": f"compile time budget ({compile_budget}s) exceeded"}
     finally:
@@ -51,6 +51,9 @@ def refine(src, args, timeout=60, strict_done=0, subst_last=0, limit=200000, com
     if st in ("closed", "closed-relaxed") and "cert=true" not in r:
         st = "certfail"
     out = {"status": st, "detail": r[:1500], "nstates": len(o.dctx.dfa.states)}
+    if st == "mismatch-machine-spins":
+        st = out["status"] = "mismatch"
+        out["machine_spins"] = True
     if st == "mismatch":
         try:
             w = r.split("word=")[1].split(" sym=")[0].split()
